@@ -10,7 +10,8 @@ import itertools
 import numpy as np
 import pandas as pd
 
-from .. import datasets as ds, explore, pool as poolmod
+from .. import dailydocs as dd, datasets as ds, explore, pool as poolmod
+from ..refmodels import curve as refcurve
 
 PROP = "C15"
 LEVEL = "exploration"
@@ -21,6 +22,8 @@ ASSUMPTIONS = [
     "genuine finding keyed by its generating parameters",
     "generating family exactly as quantified: one curve on all days of the week and in all seasons, balance points 45/58 F (heating) and "
     "64/75 F (cooling), slopes 0.3/3 per degree, base load 5/50, multiplicative noise 1 % (uniform, three explicit integer draws)",
+    "the smoothed members of the family (daily models): the same grid with the generating curve smoothed - smoothing length 4 F for the "
+    "one-slope shapes, 0.3 of the dead band on each side for the two-slope shape - evaluated by refmodels/curve.py",
     "precondition (counted as rejected when not met): at least 30 baseline days beyond the balance point of every active regime",
     "NRMSE = sqrt(mean((predicted - generating curve)^2)) / mean(generating curve) over the days predict() evaluates; the second weather "
     "year is the same climate with another weather seed; loads are compared as sum(load)/sum(generated usage)",
@@ -49,6 +52,7 @@ def grid(tier):
             continue
         if shape == "cooling" and hbp != HBPS[0]:
             continue
+        h = 0
         if tier == "quick":
             if draw != 0:
                 continue
@@ -58,6 +62,9 @@ def grid(tier):
                 continue
         out.append({"family": fam, "shape": shape, "base": base, "slope": slope, "hbp": hbp, "cbp": cbp, "climate": climate,
                     "zone": zone, "draw": draw})
+        # the smoothed members of the family (daily models only: the billing model family has no smoothed shapes)
+        if fam == "daily" and shape != "flat" and (tier == "thorough" or h % 2 == 0):
+            out.append(dict(out[-1], smooth=True))
     # every 4th case uses a model OBJECT that was already fitted on another building (a building that follows the model must be
     # recovered by the fit whatever the object was used for before)
     for i, c in enumerate(out):
@@ -72,10 +79,27 @@ def gen(case):
     return dict(base=case["base"], hs=hs, hbp=case["hbp"], cs=cs, cbp=case["cbp"])
 
 
+SMOOTH_LENGTH = 4.0    # single-slope shapes: smoothing length in deg F
+SMOOTH_FRACTION = 0.3  # two-slope shape: fraction of the dead band, each side
+_TC = {"T_min": -100.0, "T_max": 200.0, "T_min_seg": -100.0, "T_max_seg": 200.0}
+
+
+def truth_fn(case):
+    """the generating curve as a function of an array of temperatures"""
+    g = gen(case)
+    if not case.get("smooth"):
+        return lambda T: ds.curve(T, **g)
+    shape = {"heating": "hdd_tidd_smooth", "cooling": "tidd_cdd_smooth", "both": "hdd_tidd_cdd_smooth"}[case["shape"]]
+    k = SMOOTH_FRACTION if case["shape"] == "both" else SMOOTH_LENGTH
+    c = dd.coeffs(shape, intercept=g["base"], hdd_bp=g["hbp"], hdd_beta=g["hs"], hdd_k=k, cdd_bp=g["cbp"], cdd_beta=g["cs"], cdd_k=k)
+    return lambda T: np.array(refcurve.evaluate(c, _TC, np.asarray(T, float))[1])
+
+
 def run_case(case):
     import opendsm.eemeter as em
 
     g = gen(case)
+    truth_of = truth_fn(case)
     zone = case["zone"]
     idx = ds.local_days("2021-01-01", 365, zone)
     T = ds.daily_temperature(idx, case["climate"], 20 + case["draw"])
@@ -85,10 +109,14 @@ def run_case(case):
         return {"rejected": "fewer than 30 baseline days below the heating balance point"}
     if g["cs"] > 0 and int((Tn > g["cbp"]).sum()) < 30:
         return {"rejected": "fewer than 30 baseline days above the cooling balance point"}
-    y = ds.daily_usage(T, noise=0.01, seed=100 + case["draw"], **g)
+    if case.get("smooth"):
+        rng = np.random.default_rng(4100 + case["draw"])
+        y = pd.Series(truth_of(Tn) * (1 + 0.01 * rng.uniform(-1, 1, len(Tn))), index=idx, name="observed")
+    else:
+        y = ds.daily_usage(T, noise=0.01, seed=100 + case["draw"], **g)
     idx2 = ds.local_days("2022-01-01", 365, zone)
     T2 = ds.daily_temperature(idx2, case["climate"], 40 + case["draw"])
-    key = {"family": case["family"], "gp": f"{case['shape']}|base={case['base']}|slope={case['slope']}|hbp={case['hbp']}|cbp={case['cbp']}|{case['climate']}"}
+    key = {"family": case["family"], "gp": f"{case['shape']}{'~smooth' if case.get('smooth') else ''}|base={case['base']}|slope={case['slope']}|hbp={case['hbp']}|cbp={case['cbp']}|{case['climate']}"}
     def fresh(cls):
         m = cls()
         if case.get("reused_object"):
@@ -121,7 +149,7 @@ def run_case(case):
     res = []
     for name, p in (("baseline_year", p1), ("second_weather_year", p2)):
         ok = p["predicted"].notna().to_numpy()
-        truth = ds.curve(p["temperature"].to_numpy(float)[ok], **g)
+        truth = truth_of(p["temperature"].to_numpy(float)[ok])
         pred = p["predicted"].to_numpy(float)[ok]
         nrmse = float(np.sqrt(np.mean((pred - truth) ** 2)) / truth.mean())
         if case["family"] == "billing":
